@@ -3,65 +3,86 @@
 
 use crate::kernel::report::{Ctx, PropertyMeta, Stats, Tier};
 
+pub mod gamma;
 pub mod stream;
 
-pub const CLAIMED: [&str; 1] = ["C09"];
+pub const CLAIMED: [&str; 2] = ["C05", "C09"];
 
-static META: [PropertyMeta; 1] = [PropertyMeta {
-    id: "C09",
-    level: "exploration",
-    engine: "stream-sim",
-    rule: "cases = (codec, byte string or integer, reader/writer fault plan) for the standalone codecs and (message shape, byte string) for in-message decoders; enumerated families: every string of <=2 bytes (quick; <=3 bytes thorough, quick samples 3-byte blocks), 6160 sign/padding boundary strings of 7-11 and 17-22 bytes each under every EOF/error offset, 1-byte chunking and EINTR, all of +-2^k, +-2^k+-1 for k<=200 minimal and padded; seeded random strings <=40 bytes and numbers <=260 bits under seeded plans. distinct = distinct (codec|shape, input, plan) triples (strings of the exhaustive blocks are distinct by construction and counted without hashing); non-trivial = string longer than 1 byte or a fault plan present.",
-    assumptions: &[
-        "the harness's own limb arithmetic (models/bigint.rs, unit-tested against known vectors) is the definition of (S)LEB128 value and minimal form",
-        "candid::Nat/Int are compared through their decimal Display and built through Nat::parse/Int::parse (num-bigint decimal conversion is trusted)",
-        "in-message decoders (Decode! at Nat/Int/u128/i128/Vec/BTreeMap/Option, IDLArgs::from_bytes) are reached by workload only: no schedule or fault can be injected below a byte slice",
-    ],
-    real_components: &["candid::Nat::{encode,decode}", "candid::Int::{encode,decode}", "candid::types::leb128::{encode_nat,encode_int,decode_nat,decode_int}", "candid::de (in-message paths)", "num-bigint", "leb128 crate"],
-    stub_components: &["io::Read -> SimReader (short read, EINTR, EOF/error at offset)", "io::Write -> SimWriter (short write, EINTR, write-zero/error at offset)"],
-}];
+static META: [PropertyMeta; 2] = [
+    PropertyMeta {
+        id: "C05",
+        level: "exploration",
+        engine: "gamma-sim",
+        rule: "a run = one generated environment (1-6 definitions plus a mutated twin of each, recursive and mutually recursive, all constructors, references) under a seeded renaming of definitions, 1-3 caller-held memos, and a seeded history of 3-14 queries over the entry points subtype / subtype_with_config(Silence) / subtype_check_all / equal, plus text-level service_compatible / service_compatibility_report / service_equal on harness-printed programs with permuted definition, field and method order; enumerated family: for small environments (2 definitions, 49 bodies each) every history of two queries over 36 type pairs on one memo. distinct = distinct (canonical hash of memo contents before the query, entry point, query pair); enumerated histories are distinct by construction. non-trivial = the query ran on a memo that already held assumptions from earlier successful queries.",
+        assumptions: &[
+            "models/gfp.rs (greatest fixed point of the rules of spec/Candid.md §Rules over reachable pairs, unit-tested) is the definition of the relation; the four opt rules together make every type a subtype of every option type",
+            "a memo that has seen a failed top-level query is retired (the statement promises independence from earlier successful checks and from internal probes only)",
+            "OptReport::Error mode is not part of the statement and is not exercised; class types only at top level and not generated",
+            "text-level programs are printed by the harness's own printer; a program the parser does not load is counted as inconclusive, not as a violation",
+        ],
+        real_components: &["candid::types::subtype::{subtype, subtype_with_config, subtype_check_all, equal}", "candid_parser::utils::{service_compatible, service_compatibility_report, service_equal}", "candid_parser parser and type checker", "TypeEnv::merge_type"],
+        stub_components: &["none: the scheduler only decides the order of API calls and which memo they share"],
+    },
+    PropertyMeta {
+        id: "C09",
+        level: "exploration",
+        engine: "stream-sim",
+        rule: "cases = (codec, byte string or integer, reader/writer fault plan) for the standalone codecs and (message shape, byte string) for in-message decoders; enumerated families: every string of <=2 bytes (quick; <=3 bytes thorough, quick samples 3-byte blocks), 6160 sign/padding boundary strings of 7-11 and 17-22 bytes each under every EOF/error offset, 1-byte chunking and EINTR, all of +-2^k, +-2^k+-1 for k<=200 minimal and padded; seeded random strings <=40 bytes and numbers <=260 bits under seeded plans. distinct = distinct (codec|shape, input, plan) triples (strings of the exhaustive blocks are distinct by construction and counted without hashing); non-trivial = string longer than 1 byte or a fault plan present.",
+        assumptions: &[
+            "the harness's own limb arithmetic (models/bigint.rs, unit-tested against known vectors) is the definition of (S)LEB128 value and minimal form",
+            "candid::Nat/Int are compared through their decimal Display and built through Nat::parse/Int::parse (num-bigint decimal conversion is trusted)",
+            "in-message decoders (Decode! at Nat/Int/u128/i128/Vec/BTreeMap/Option, IDLArgs::from_bytes) are reached by workload only: no schedule or fault can be injected below a byte slice",
+        ],
+        real_components: &["candid::Nat::{encode,decode}", "candid::Int::{encode,decode}", "candid::types::leb128::{encode_nat,encode_int,decode_nat,decode_int}", "candid::de (in-message paths)", "num-bigint", "leb128 crate"],
+        stub_components: &["io::Read -> SimReader (short read, EINTR, EOF/error at offset)", "io::Write -> SimWriter (short write, EINTR, write-zero/error at offset)"],
+    },
+];
 
 pub fn meta(prop: &str) -> Option<&'static PropertyMeta> {
     META.iter().find(|m| m.id == prop)
 }
 
-pub fn runs_for(prop: &str, tier: Tier) -> u64 {
-    match prop {
-        "C09" => stream::runs_for(tier),
-        _ => 0,
-    }
-}
-
-pub fn generate(prop: &str, tier: Tier, seed: u64, run: u64) -> serde_json::Value {
-    match prop {
-        "C09" => serde_json::to_value(stream::generate(tier, seed, run)).unwrap(),
-        _ => serde_json::Value::Null,
-    }
-}
-
 fn parse<T: serde::de::DeserializeOwned>(sc: &serde_json::Value) -> Result<T, String> {
     serde_json::from_value(sc.clone()).map_err(|e| format!("bad scenario: {e}"))
 }
+fn js<T: serde::Serialize>(x: T) -> serde_json::Value {
+    serde_json::to_value(x).unwrap()
+}
+
+macro_rules! dispatch {
+    ($prop:expr, $m:ident => $body:expr, $default:expr) => {
+        match $prop {
+            "C05" => {
+                use gamma as $m;
+                $body
+            }
+            "C09" => {
+                use stream as $m;
+                $body
+            }
+            _ => $default,
+        }
+    };
+}
+
+pub fn runs_for(prop: &str, tier: Tier) -> u64 {
+    dispatch!(prop, m => m::runs_for(tier), 0)
+}
+
+pub fn generate(prop: &str, tier: Tier, seed: u64, run: u64) -> serde_json::Value {
+    dispatch!(prop, m => js(m::generate(tier, seed, run)), serde_json::Value::Null)
+}
 
 pub fn execute(prop: &str, sc: &serde_json::Value, ctx: &mut Ctx) -> Result<(), String> {
-    match prop {
-        "C09" => stream::execute(&parse(sc)?, ctx),
-        _ => Err(format!("no engine for {prop}")),
-    }
+    dispatch!(prop, m => m::execute(&parse(sc)?, ctx), Err(format!("no engine for {prop}")))
 }
 
 pub fn shrink(prop: &str, sc: &serde_json::Value) -> Vec<serde_json::Value> {
-    match prop {
-        "C09" => parse::<stream::Sc>(sc).map(|s| stream::shrink(&s).into_iter().map(|x| serde_json::to_value(x).unwrap()).collect()).unwrap_or_default(),
-        _ => vec![],
-    }
+    dispatch!(prop, m => parse::<m::Sc>(sc).map(|s| m::shrink(&s).into_iter().map(js).collect()).unwrap_or_default(), vec![])
 }
 
 pub fn size(prop: &str, sc: &serde_json::Value) -> usize {
-    match prop {
-        "C09" => parse::<stream::Sc>(sc).map(|s| stream::size(&s)).unwrap_or(0),
-        _ => 0,
-    }
+    dispatch!(prop, m => parse::<m::Sc>(sc).map(|s| m::size(&s)).unwrap_or(0), 0)
 }
 
 /// Invariants whose evaluation may kill the process must be minimised in a child.
@@ -79,6 +100,15 @@ pub fn extra_evidence(prop: &str, tier: Tier, stats: &Stats) -> serde_json::Valu
                 "exhaustive": l1 == 256 && l2 == 65536 && (tier == Tier::Quick || l3 == 16777216),
                 "exhaustive_note": format!("all {l1} 1-byte and {l2} 2-byte strings; {l3} of 16777216 3-byte strings; x4 standalone codecs each"),
                 "workload_only_components": ["in-message decoders (no seam below a byte slice)"],
+            })
+        }
+        "C05" => {
+            let envs = stats.exhaustive_parts.get("small_envs").copied().unwrap_or(0);
+            serde_json::json!({
+                "exhaustive": false,
+                "exhaustive_note": format!("{envs} of {} small environments had all two-query histories enumerated{}", gamma::small_env_count(), if tier == Tier::Thorough { " (thorough: every small environment)" } else { " (quick: seeded sample)" }),
+                "schedule_reached": "order of queries, which memo they share, memo retirement after failed queries",
+                "workload_only": "shapes of environments and query pairs",
             })
         }
         _ => serde_json::json!({}),
